@@ -249,6 +249,8 @@ impl<
                 m.iter()
                     // Sanity check. Verify that the store agrees that this key is expired.
                     .filter_map(|(k, v)| {
+                        #[cfg(transparencies_stretto_verif)]
+                        crate::verif::yield_point("cleanup_key");
                         self.expiration(k)
                             .and_then(|t| {
                                 if t.is_expired() {
@@ -286,6 +288,8 @@ impl<
         let mut removed_items = Vec::new();
         if let Some(items) = items {
             for (k, v) in items.iter() {
+                #[cfg(transparencies_stretto_verif)]
+                crate::verif::yield_point("cleanup_key");
                 let expiration = self.expiration(k);
                 if let Some(t) = expiration {
                     if t.is_expired() {
@@ -320,6 +324,38 @@ impl<
 
     pub fn item_size(&self) -> usize {
         self.store_item_size
+    }
+}
+
+#[cfg(transparencies_stretto_verif)]
+impl<
+        V: Send + Sync + 'static + Clone,
+        U: UpdateValidator<Value = V>,
+        SS: BuildHasher + Clone + 'static,
+        ES: BuildHasher + Clone + 'static,
+    > ShardedMap<V, U, SS, ES>
+{
+    pub(crate) fn verif_entries(&self) -> Vec<crate::verif::Entry<V>> {
+        let mut v = Vec::new();
+        for shard in self.shards.iter() {
+            let data = shard.read();
+            for (k, item) in data.iter() {
+                let (d, at) = item.expiration.verif_parts();
+                v.push(crate::verif::Entry {
+                    index: *k,
+                    conflict: item.conflict,
+                    value: item.value.get().clone(),
+                    d,
+                    at,
+                });
+            }
+        }
+        v.sort_by_key(|e| e.index);
+        v
+    }
+
+    pub(crate) fn verif_buckets(&self) -> Vec<(i64, Vec<(u64, u64)>)> {
+        self.em.verif_buckets()
     }
 }
 
